@@ -225,6 +225,9 @@ theorem empty_survivor_redelivered :
      | InFlight.Res.ok s => s.conts.isEmpty && decide (s.map = [1]) && decide (s.h.pq = [1]) && s.queued.isEmpty
      | _ => false) = true := by decide
 
+/-- claim audit 2, item 41: `survivors` starts from `{ initSt [] with scanAtomic := true }`, i.e. `pushAtomic = false` — the shape
+BEFORE F48 (and before F27).  The same witness on the tree just before F27 (`committedTree`: F7 + F16 + F48) is
+`empty_survivor_variants`. -/
 theorem empty_discards_held_full_false : ¬ EmptyDiscardsHeldFull := by
   intro h
   have := h [.put 1, .startMapPush 1 1 10, .startPQPush 1, .reqPop 1 1 0]
